@@ -28,7 +28,7 @@ pub fn solve_full(src: &str, lm: Option<rooc::LinearModel>) -> (String, Option<S
     let s = src.to_string();
     std::thread::spawn(move || {
         let r = std::panic::catch_unwind(|| {
-            let solver = match RoocSolver::try_new(s) { Ok(s) => s, Err(e) => return (format!("(compile-error parse {})", sx::q(&format!("{:?}", e).chars().take(40).collect::<String>())), None) };
+            let solver = match RoocSolver::try_new(s) { Ok(s) => s, Err(e) => return (format!("(compile-error parse {})", sx::q(&format!("{:?}", e).chars().take(40).collect::<String>())), Some("(parse-error)".into())) };
             match solver.solve_using(auto_solver) {
                 Ok(sol) => {
                     let asg = sol.assignment().iter().map(|a| {
@@ -39,7 +39,7 @@ pub fn solve_full(src: &str, lm: Option<rooc::LinearModel>) -> (String, Option<S
                     let full = lm.as_ref().map(|lm| format!("(solved {})", crate::gen_lp::result(&crate::child::pack_milp(lm, Ok(sol)))));
                     (summary, full)
                 }
-                Err(RoocSolverError::Transform(e)) => (format!("(compile-error transform {})", sx::q(&format!("{:?}", e).chars().take(40).collect::<String>())), Some("(transform)".into())),
+                Err(RoocSolverError::Transform(e)) => (format!("(compile-error transform {})", sx::q(&format!("{:?}", e).chars().take(40).collect::<String>())), Some("(transform-error)".into())),
                 Err(RoocSolverError::Linearization(e)) => (format!("(compile-error linearize {})", crate::props::c01::lin_error(&e)), Some(format!("(linearization {})", crate::props::c01::lin_error(&e)))),
                 Err(RoocSolverError::Solver(e)) => (solver_error(&e), Some(format!("(solver (err {}))", crate::child::err_variant(&e)))),
             }
@@ -166,7 +166,7 @@ pub fn glue(text: &str, tag: &str) -> Option<Case> {
     };
     let (summary, full) = solve_full(text, lm);
     let full = full?;
-    if full == "(transform)" { return None; }
+    if full == "(transform-error)" || full == "(parse-error)" { return None; }
     let mut c = Case::default();
     c.req = format!("solve-using {} {} {}", ms, sx::num(1e-9), mlp);
     c.imp = full.clone();
@@ -174,6 +174,56 @@ pub fn glue(text: &str, tag: &str) -> Option<Case> {
     c.tags = vec![tag.into(), "glue-diff".into(), format!("glue-{}", full.trim_start_matches('(').split(|ch| ch == ' ' || ch == ')').next().unwrap_or(""))];
     c.nontrivial = summary.starts_with("(solution");
     Some(c)
+}
+
+/// the WHOLE default path from text, `RoocSolver::try_new(text)?.solve_using(auto_solver)`, against the single model function
+/// `Pipeline.solveProg` on programs of the iteration fragment (generator and protocol form of `pre_expand::program_cases`:
+/// `where` constants, `define` with iterations, indexed names, iterated constraints): which arm (parse error of `try_new`,
+/// Transform, Linearization, Solver) and the whole returned `LpSolution`
+pub fn text_cases(r: &mut Rng, n: usize) -> Vec<Case> {
+    let mut out = vec![];
+    let mut progs: Vec<(String, String, Vec<String>)> = vec![];
+    for pc in crate::pre_expand::program_cases(r, n) {
+        let Some(sxp) = pc.req.strip_prefix("transformprog ") else { continue };
+        // `show` of these cases is "<program text>\n=> <model dump>"
+        let text = match pc.show.rfind("\n=> ") { Some(i) => pc.show[..i].to_string(), None => pc.show.clone() };
+        progs.push((sxp.to_string(), text, pc.tags.clone()));
+    }
+    // fixed programs for the arms the random stream rarely reaches: the parser's arity rule (`abs` with two operands: a
+    // CompilationError of `try_new`), a clean iterated program that is solved, a redeclaration (Transform error of `transform`)
+    progs.push(("(prog (consts) (min (blk abs (var \"z\") (var \"z\"))) (cons (con none (var \"z\") (ge (lit 0)) ())) (decls (decl ((plain \"z\")) (real (lit 0) (lit 9)) ())))".into(),
+        "min abs{ z, z }\ns.t.\n    z >= 0\ndefine\n    z as Real(0, 9)\n".into(), vec!["fragment:fixed".into()]));
+    progs.push(("(prog (consts (\"k\" (lit 2))) (max (agg sum ((it (\"i\") (range (lit 0) (var \"k\") true))) (cvar \"x\" (var \"i\")))) (cons (con (cv \"c\" (var \"i\")) (cvar \"x\" (var \"i\")) (le (var \"i\")) ((it (\"i\") (range (lit 0) (var \"k\") true))))) (decls (decl ((cv \"x\" (var \"i\"))) (real (lit 0) (lit 9)) ((it (\"i\") (range (lit 0) (var \"k\") true))))))".into(),
+        "max sum(i in 0..=k) { x_i }\ns.t.\n    c_i: x_i <= i for i in 0..=k\nwhere\n    let k = 2\ndefine\n    x_i as Real(0, 9) for i in 0..=k\n".into(), vec!["fragment:fixed".into()]));
+    progs.push(("(prog (consts) (min (var \"z\")) (cons (con none (var \"z\") (ge (lit 0)) ())) (decls (decl ((plain \"z\")) (real (lit 0) (lit 9)) ()) (decl ((plain \"z\")) bool ())))".into(),
+        "min z\ns.t.\n    z >= 0\ndefine\n    z as Real(0, 9)\n    z as Boolean\n".into(), vec!["fragment:fixed".into()]));
+    for (sxp, text, ptags) in progs {
+        let sxp = sxp.as_str();
+        let pc = Case { tags: ptags, ..Case::default() };
+        // microlp's raw answer for the model the real front end + linearizer produce (none when an earlier stage fails)
+        let lm = rooc::RoocParser::new(text.clone()).parse_and_transform(vec![], &indexmap::IndexMap::new()).ok()
+            .and_then(|m| std::panic::catch_unwind(|| rooc::Linearizer::linearize(m)).ok().and_then(|r| r.ok()));
+        let mlp = match &lm {
+            Some(lm) => match crate::gen_lp::mlp(&crate::child::solve(crate::child::SolverKind::RawMilp, lm, &crate::child::Opts::default(), Duration::from_secs(3))) { Some(m) => m, None => continue },
+            None => "(merr pre)".to_string(),
+        };
+        let (summary, full) = solve_full(&text, lm);
+        let Some(mut full) = full else { continue };
+        // the type checker is a parameter of the model: its verdict on this text
+        let tc = std::panic::catch_unwind(|| rooc::RoocParser::new(text.clone()).type_check(&vec![], &indexmap::IndexMap::new()).is_ok()).unwrap_or(false);
+        if full == "(transform-error)" { full = if tc { "(transform-error transform)".into() } else { "(transform-error type)".into() }; }
+        let mut c = Case::default();
+        c.req = format!("solve-prog {} {} {} {}", sxp, if tc { 1 } else { 0 }, sx::num(1e-9), mlp);
+        c.imp = full.clone();
+        c.tags.push(if tc { "type-checks".into() } else { "type-check-fails".into() });
+        c.show = text.replace('\n', " ; ");
+        c.tags.extend(vec!["text-diff".to_string(), format!("text-{}", full.trim_start_matches('(').split(|ch| ch == ' ' || ch == ')').next().unwrap_or(""))]);
+        c.tags.extend(pc.tags.iter().filter(|t| t.starts_with("fragment:")).cloned());
+        c.nontrivial = summary.starts_with("(solution");
+        if full == "(panic)" { c.impl_violation = Some(format!("one-shot solve panicked on: {}", c.show)); c.sig = Some("panic".into()); }
+        out.push(c);
+    }
+    out
 }
 
 pub fn generate(seed: u64, n: usize, _thorough: bool, _corpus: Option<&str>) -> Vec<Case> {
@@ -202,6 +252,8 @@ pub fn generate(seed: u64, n: usize, _thorough: bool, _corpus: Option<&str>) -> 
     ] {
         if let Some(mut c) = glue(text, "fixed") { c.tags.push("glue-fixed".into()); out.push(c); }
     }
+    // the whole default path from TEXT on the iteration fragment
+    out.extend(text_cases(&mut r, (n / 8).max(20).min(1500)));
     crate::child::shutdown();
     out
 }
